@@ -18,9 +18,8 @@ CONSTANTS
   MaxHeld = 0
   D = 3
 INIT Init
-NEXT Next
+NEXT NextB
 VIEW viewP
-CONSTRAINT Bound
 INVARIANT TypeOK
 INVARIANT Export
 PROPERTY NoEmitBlocked
